@@ -36,7 +36,10 @@ WORDS = ["a", "b", "x", "io", "add", "sub", "sort", "parse", "alloc_vec", "hash_
          "émoji🙂", "ΑΒΓ", "ｗｉｄｅ", "snake_case_name", "CamelCase", "a_rather_long_benchmark_name_that_widens", "x" * 40,
          "0", "1", "2", "10", "16", "100", "-5", "1.5", "1e3", "Vec<u8>", "&str", "(a, b)", "t=1", "r", "q#x", "(ignored)", "max alloc:"]
 ODD = ["a  b", "trail ", " lead", "│", "├─ x", "╰─", "a │ b", "  ", "x  (ignored)", "─", "tab\tx"]
-THREADS = ["-", "-", "-", "1", "2", "1,2", "1,2", "2,4", "1,2,16", "1,3", "1,2,4"]
+# raw lists as an array literal in the attribute would give them: unsorted, with repeats, 0 = the machine's
+# parallelism, P = that parallelism written out (the harness probes it and tells the model)
+THREADS = ["-", "-", "-", "1", "2", "1,2", "1,2", "2,4", "1,2,16", "1,3", "1,2,4",
+           "0", "0,1,2", "2,0,1,2", "0,P", "P,0", "2,1", "2,2,1", "0,0", "1,0", "4,2,0,2", "P,1,P"]
 
 
 def enc(s):
@@ -102,8 +105,12 @@ class Gen:
         alloc = r.choice([0, 0, 1, 8, 64, 4096, 10**6])
         if ign:
             self.feat["ignored"] += 1
-        if threads not in ("-", "1", "2"):
+        if threads not in ("-", "1", "2", "0", "0,0", "0,P", "P,0"):
             self.feat["thread-branches"] += 1
+        if "0" in threads.split(","):
+            self.feat["threads-with-0"] += 1
+        if threads != "-" and threads.split(",") != sorted(set(threads.split(",")), key=lambda x: (x == "P", x)):
+            self.feat["threads-unsorted-or-repeated"] += 1
         if counters:
             self.feat["counters"] += 1
         if alloc:
@@ -150,7 +157,11 @@ class Gen:
         self.feat["action=" + action] += 1
         self.feat["profiler"] += prof == "p1"
         self.feat["maxdepth=%d" % maxdepth] += 1
-        return "%s %s N %d %s" % (action, prof, len(tops), " ".join(tops))
+        tail = ""
+        if r.random() < 0.08:
+            tail = " T " + r.choice([t for t in THREADS if t != "-"])
+            self.feat["--threads"] += 1
+        return "%s %s N %d %s%s" % (action, prof, len(tops), " ".join(tops), tail)
 
 
 def corpus_cases():
@@ -276,6 +287,9 @@ def _parse(case):
     assert nxt() == "N"
     tops = [node() for _ in range(int(nxt()))]
     flt = None
+    if pos[0] < len(t) and t[pos[0]] == "T":
+        nxt()
+        prof = prof + "|" + nxt()      # "--threads" travels with the profile flag through _ser
     if pos[0] < len(t) and t[pos[0]] == "X":
         nxt()
         exact = nxt() == "e"
@@ -335,7 +349,9 @@ def _ser(action, prof, tops, flt=None):
             return "G %s %s %d %s" % (n[1], n[2], len(n[3]), " ".join(s(c) for c in n[3]))
         a = "P" if n[5] is None else "A%d %s" % (len(n[5]), " ".join(n[5]))
         return "B %s %s %s %s %s %s %s" % (n[1], n[2], n[3], n[4], a, n[6], n[7])
-    return ("%s %s N %d %s" % (action, prof, len(tops), " ".join(s(x) for x in tops)) + filter_tail(tops, flt)).rstrip()
+    prof, _, cli = prof.partition("|")
+    return ("%s %s N %d %s" % (action, prof, len(tops), " ".join(s(x) for x in tops))
+            + (" T " + cli if cli else "") + filter_tail(tops, flt)).rstrip()
 
 
 def rx_escape(text):
